@@ -1,5 +1,155 @@
-import Verif.C10.Model
+/-
+C10 — property theorems: "A test-suite table behaves as a list through any edit/commit/reload history".
+Model of the REPAIRED code (fix commits 382c450, 92e9760, d65eea1, 1c0252f, 2839766).
+Only statements live here; the proofs are in Lemmas.lean.
+-/
+import Verif.C10.Lemmas
+
 namespace Verif.C10
-theorem sync_not_inTransaction (t : T) : inTransaction (sync t) = false := by
-  simp [inTransaction, sync]
+open Verif.Py
+
+/-! ## the bookkeeping invariant holds for every table the code can build -/
+
+/-- a table as `Table.__init__` / `_sync_with_file` builds it (also: a fresh `TestSuite` on the same
+directory) satisfies the invariant. -/
+theorem aligned_fresh (t : T) : Aligned (sync t) := L.aligned_sync t
+
+/-! ## "Under every history of appends, extends, single-row and slice assignments (including ones that
+grow or shrink the table), updates, clears, commits, reloads and re-openings, a table's length,
+indexing, iteration and column selection always equal those of the plain list of rows the history
+describes, whether the rows currently live on disk, in memory, or both, and whether the file is plain
+or compressed." -/
+
+/-- REFINEMENT, one step, every operation, every argument (any slice, any step, any index, rows of the
+wrong width, unknown columns): the operation on the table is the same operation on the plain list —
+same resulting list, same stored relation, same exception — and the invariant is kept.  The only
+deviation is the documented one: `commit` on a compressed relation whose pending rows are appended
+raises `NotImplementedError` and changes nothing. -/
+theorem step_refines (t : T) (op : Op) (h : Aligned t) :
+    Aligned (step t op).1 ∧ (step t op).1.width = t.width
+    ∧ (specStep t.width (absS t) op = (absS (step t op).1, (step t op).2)
+        ∨ (op = .commit ∧ t.gz = true ∧ step t op = (t, some .notImplemented))) := by
+  have := L.step_ok t op h
+  exact ⟨this.1, this.2.1, this.2.2.2⟩
+
+/-- the invariant survives every history (plain or compressed). -/
+theorem run_aligned (t : T) (ops : List Op) (h : Aligned t) : Aligned (run t ops).1 := by
+  induction ops generalizing t with
+  | nil => exact h
+  | cons op ops ih => simp only [run]; exact ih _ (L.step_ok t op h).1
+
+/-- REFINEMENT, all histories: on a plain relation file every history of operations gives exactly the
+list, the stored relation and the sequence of exceptions that the same history gives on a plain Python
+list (`specRun`), from any reachable starting state. -/
+theorem run_refines (t : T) (ops : List Op) (h : Aligned t) (hgz : t.gz = false) :
+    specRun t.width (absS t) ops = (absS (run t ops).1, (run t ops).2) := by
+  induction ops generalizing t with
+  | nil => rfl
+  | cons op ops ih =>
+    obtain ⟨hA, hw, hg, hstep⟩ := L.step_ok t op h
+    simp only [run, specRun]
+    rcases hstep with hs | ⟨_, hgt, _⟩
+    · rw [hs]
+      simp only
+      have := ih (step t op).1 hA (hg hgz)
+      rw [hw] at this
+      rw [this]
+    · rw [hgz] at hgt; cases hgt
+
+/-- `len(table)` is the length of the list. -/
+theorem len_spec (t : T) (h : Aligned t) : len t = (abs t).length := (L.abs_length h).symm
+
+/-- `table[i]` for every integer `i` (negative, out of range) is `list[i]`, `IndexError` included. -/
+theorem getItem_spec (t : T) (i : Int) (h : Aligned t) : getItem t i = pyGetItem (abs t) i :=
+  L.getItem_eq t i h
+
+/-- iteration enumerates the list with its positions (no position is skipped). -/
+theorem iter_spec (t : T) (h : Aligned t) :
+    enumRows t = ((abs t).zipIdx).map (fun p => (p.2, p.1)) := L.enumRows_eq t h
+
+/-- column selection is the projection of the list (by definition of the model: `select` reads through
+`_enum_rows`). -/
+theorem select_spec (t : T) (cols : List Nat) : select t cols = selectL t.width (abs t) cols := rfl
+
+-- FULL STATEMENT (not proved): ∀ sl, Aligned t → iterSlice t sl = pyGetSlice (abs t) sl
+-- (slices with any start/stop/step).  Missing: the arithmetic lemma that filtering the ascending
+-- positions by membership in `rangeList a b st` and reversing for st < 0 enumerates `rangeList a b st`.
+-- Proved: the slices `table[p:]` (the ones `commit` itself uses); the general clause is covered by the
+-- correspondence run and the direct oracle (slices with start/stop/step in -8..8 ∪ None after every step).
+/-- `table[p:]` is `list[p:]`. -/
+theorem slice_from_spec_partial (t : T) (p : Nat) (h : Aligned t) (hp : p ≤ len t) :
+    iterSlice t ⟨some (p : Int), none, none⟩ = .ok ((abs t).drop p) := L.iterSlice_from t p h hp
+
+/-! ## "Commit makes the stored relation equal to that list and committing again changes nothing,
+reload returns to the last committed state, in_transaction is false after either" -/
+
+/-- a successful commit stores exactly the list, shows the same list, and ends the transaction. -/
+theorem commit_spec (t t' : T) (h : Aligned t) (hc : commit t = .ok t') :
+    t'.file = abs t ∧ abs t' = abs t ∧ inTransaction t' = false ∧ Aligned t' := by
+  obtain ⟨ht', _⟩ := L.commit_ok t t' h hc
+  rw [ht']
+  exact ⟨rfl, L.abs_sync _, L.sync_not_inTransaction _, L.aligned_sync _⟩
+
+/-- committing again changes nothing. -/
+theorem commit_idempotent (t t' : T) (h : Aligned t) (hc : commit t = .ok t') : commit t' = .ok t' := by
+  obtain ⟨ht', _⟩ := L.commit_ok t t' h hc
+  generalize t'.gz = g at ht'
+  subst ht'
+  exact L.commit_sync _
+
+/-- commit can only fail with `NotImplementedError`, only on a compressed relation; on a plain file it
+always succeeds. -/
+theorem commit_fails_only_on_gzip (t : T) (e : Err) (h : Aligned t) (hc : commit t = .error e) :
+    e = .notImplemented ∧ t.gz = true := L.commit_err t e h hc
+
+/-- reload (and re-opening) shows the last committed relation and is not in a transaction. -/
+theorem reload_spec (t : T) : abs (sync t) = t.file ∧ inTransaction (sync t) = false :=
+  ⟨L.abs_sync t, L.sync_not_inTransaction t⟩
+
+/-! ## "batch processing with any buffer size leaves every produced row exactly once on disk and in
+memory so that a later commit adds nothing" -/
+
+/-- EXACTLY ONCE: for every buffer size `b` (any integer), gzip or not, any set of affected tables and
+any sequence of produced rows, if `process` completes then every table `j` shows AND stores exactly
+its previous rows (none, if the table is one of the affected ones that processing clears) followed by
+the rows produced for it, in order, each once — no matter how many flushes happened in between. -/
+theorem process_exactly_once (s s' : Suite) (b : Int) (g : Bool) (aff : List Nat) (prod : List (Nat × Row))
+    (h : L.AllAligned s) (hp : process s b g aff prod = (s', none)) (j : Nat) :
+    L.content s' j = (if aff.contains j then [] else L.content s j) ++ L.rowsFor j prod
+    ∧ L.stored s' j = (if aff.contains j then [] else L.content s j) ++ L.rowsFor j prod :=
+  L.process_content s s' b g aff prod h hp j
+
+/-- after a completed `process` (any buffer size, gzip or not) every table is synchronized with the
+file that was just written: the file holds what the table shows, nothing is pending … -/
+theorem process_synchronized (s s' : Suite) (b : Int) (g : Bool) (aff : List Nat) (prod : List (Nat × Row))
+    (hp : process s b g aff prod = (s', none)) :
+    ∀ t ∈ s', abs t = t.file ∧ inTransaction t = false ∧ Aligned t := by
+  unfold process at hp
+  split at hp
+  · cases hp
+  · injection hp with hp _
+    subst hp
+    intro t ht
+    simp only [reloadAll, List.mem_map] at ht
+    obtain ⟨u, _, rfl⟩ := ht
+    exact ⟨L.abs_sync u, L.sync_not_inTransaction u, L.aligned_sync u⟩
+
+/-- … so that a later commit adds nothing (the repaired F05). -/
+theorem process_then_commit_adds_nothing (s s' : Suite) (b : Int) (g : Bool) (aff : List Nat)
+    (prod : List (Nat × Row)) (hp : process s b g aff prod = (s', none)) :
+    commitAll s' = (s', none) := by
+  unfold process at hp
+  split at hp
+  · cases hp
+  · injection hp with hp _
+    subst hp
+    generalize writeDatabase g _ = s1
+    induction s1 with
+    | nil => rfl
+    | cons u us ih =>
+      simp only [reloadAll, List.map_cons, commitAll] at ih ⊢
+      rw [L.commit_sync u]
+      simp only
+      rw [ih]
+
 end Verif.C10
